@@ -30,7 +30,8 @@ func validateConfig(cfg ElectionConfig) error {
 	}
 
 	// Check ValidationInterval (if set)
-	if cfg.ValidationInterval > 0 {
+	// (0 disables background validation; a negative interval is not a valid setting)
+	if cfg.ValidationInterval != 0 {
 		if cfg.ValidationInterval < cfg.HeartbeatInterval {
 			return NewValidationError("ValidationInterval", cfg.ValidationInterval,
 				fmt.Sprintf("validation interval (%v) should be >= HeartbeatInterval (%v)",
@@ -38,7 +39,8 @@ func validateConfig(cfg ElectionConfig) error {
 		}
 	}
 
-	if cfg.DisconnectGracePeriod > 0 {
+	// (0 selects the default; a negative grace period is not a valid setting)
+	if cfg.DisconnectGracePeriod != 0 {
 		minGracePeriod := cfg.HeartbeatInterval * 2
 		if cfg.DisconnectGracePeriod < minGracePeriod {
 			return NewValidationError("DisconnectGracePeriod", cfg.DisconnectGracePeriod,
